@@ -210,6 +210,13 @@ def gen_line(rng, names):
         return rng.choice(["lengthy k = 3", "length k 3", "length = 3", "length", "length ", "length k", "lengths = {1,2}",
                            "length a b = 3", "xlength k = 3", "length k == 3", "length k =", "length k = ", "length 2 = 1 + 1",
                            "length\tk2=4", "   length   k = 3 + 3   "]), "near-length"
+    if r < 0.33:
+        # the SAME group text more than once on a line: the expansion is still the full product, leftmost slowest
+        g = gen_group(rng, names)
+        e = "<" + gen_slot_expr(rng, names) + ">"
+        t = [rng.choice(TEXTS) for _ in range(4)]
+        return rng.choice([g + g, t[0] + g + t[1] + g + t[2], g + t[0] + g + g, t[0] + g + e + g, g + t[1] + gen_group(rng, names) + t[2] + g,
+                           "sequence m" + g + g + " = \"" + e + "N\""]), "repeated-group"
     if r < 0.62:
         s = rng.choice(STATEMENTS)
     else:
@@ -292,6 +299,8 @@ def name_group(rng, base):
         return base + "{,2,x}", [base, base + "2", base + "x"]
     if r < 0.8:
         return "{%s,%sb}{x,y}" % (base, base), [base + "x", base + "y", base + "bx", base + "by"]
+    if r < 0.85:
+        return base + "{1,2}{1,2}", [base + "11", base + "12", base + "21", base + "22"]
     if r < 0.9:
         return base + "{}", [base]
     return "{%s}{_1}" % base, [base + "_1"]
